@@ -145,7 +145,7 @@ class Call(E):
         o += ["(", OPT]
         for i, a in enumerate(self.args):
             if i:
-                o += [",", SP]
+                o += [OPT, ",", SP]
             if self.kw[i]:
                 o += [("var", self.kw[i]), ":", SP]
             a.toks(o)
@@ -169,7 +169,7 @@ class SList(E):
             o += ["[", OPTB]
         for i, a in enumerate(self.items):
             if i:
-                o += [SP] if self.sep == " " else [",", SP]
+                o += [SP] if self.sep == " " else [OPT, ",", SP]
             a.toks(o)
         if self.bracket:
             o += [OPT, "]"]
@@ -191,8 +191,8 @@ class Map(E):
         o += ["(", OPT]
         for i, (k, v) in enumerate(self.pairs):
             if i:
-                o += [",", SP]
-            o += [k, ":", SP]
+                o += [OPT, ",", SP]
+            o += [k, OPT, ":", SP]
             v.toks(o)
         o += [OPT, ")"]
 
@@ -382,6 +382,15 @@ class Gen:
                                                        self.any(0, simple=True)], "list")
         return Call("nth", [self.lst(d - 1), Lit("1", "num")], "any")
 
+    def map_lit(self, d):
+        r = self.r
+        keys = r.sample(["a", "b-c", "modal", "k1", "primary", '"q"', "x_y"], r.randint(1, 4))
+        def val():
+            e = self.any(d, simple=r.random() < 0.5) if r.random() < 0.8 else self.lst(0)
+            # a bare comma list would end the map entry
+            return Paren(e) if isinstance(e, SList) and e.sep == "," and not e.bracket else e
+        return Map([(k, val()) for k in keys])
+
     def any(self, d, simple=False):
         """a value that prints as valid CSS; `simple` = a single list element (space-free at top level)"""
         r = self.r
@@ -470,11 +479,37 @@ class Gen:
             return Media(r.choice(["screen", "print and (min-width: 100px)", "(max-width: 40em)"]),
                          self.block(depth - 1, ctx, r.randint(1, 2)) if in_rule else
                          [Rule(self.selector("top"), self.block(depth - 1, "rule", 2))])
-        if k < 0.92:
+        if k < 0.9:
             return Comment(r.choice(["/* loud */", "/* two\n * lines */", "/* x #{1 + 1} */", "/*! keep */"]))
+        if k < 0.97:
+            return self.map_stmt(depth, ctx)
         if in_rule:
             return self.decl(depth)
         return Rule(self.selector(ctx), self.block(max(depth - 1, 0), "rule"))
+
+    def map_stmt(self, depth, ctx):
+        """a map literal consumed by `@each $k, $v in …` or by map-get"""
+        r = self.r
+        m = self.map_lit(1)
+        in_rule = ctx in ("rule", "mixin")
+        k = r.random()
+        if k < 0.45:
+            kv, vv = self.fresh("key"), self.fresh("val")
+            src = m
+            if r.random() < 0.5:
+                name = self.fresh("map")
+                self.vars.append((name, "map"))
+                src = Var(name, "map")
+                pre = [VarDecl(name, m)]
+            else:
+                pre = []
+            body = [Decl("k", Var(vv), False, Interp("k-", Var(kv), ""))]
+            each = Each(kv, src, body if in_rule else [Rule(self.selector("top"), body)], var2=vv)
+            return each if not pre else If([(Lit("true", "bool"), pre + [each])], None)
+        key = Lit(m.pairs[r.randrange(len(m.pairs))][0], "str")
+        fn = r.choice(["map-get", "map-has-key", "map-get"])
+        d = Decl(r.choice(["width", "z"]), Call(fn, [m, key], "any"))
+        return d if in_rule else Rule(self.selector("top"), [d])
 
     def vardecl(self, depth, ty=None):
         r = self.r
@@ -652,14 +687,17 @@ class For(S):
 
 
 class Each(S):
-    def __init__(self, var, e, body):
-        self.var, self.e, self.body = var, e, body
+    def __init__(self, var, e, body, var2=None):
+        self.var, self.e, self.body, self.var2 = var, e, body, var2
 
     def blocks(self):
         return [self.body]
 
     def toks(self, o):
-        o += ["@each", SPW, ("var", self.var), SPW, "in", SPW]
+        o += ["@each", SPW, ("var", self.var)]
+        if self.var2:
+            o += [SPW_OPT, ",", SPW, ("var", self.var2)]
+        o += [SPW, "in", SPW]
         self.e.toks(o)
         o += [SPW]
         emit_block(self.body, o)
@@ -706,7 +744,7 @@ class Include(S):
             o += ["(", OPT]
             for i, a in enumerate(self.args):
                 if i:
-                    o += [",", SP]
+                    o += [OPT, ",", SP]
                 a.toks(o)
             o += [OPT, ")"]
         if self.content is not None:
@@ -788,7 +826,7 @@ def emit_params(params, o):
     o += ["(", OPT]
     for i, (n, d) in enumerate(params):
         if i:
-            o += [",", SP]
+            o += [OPT, ",", SP]
         o.append(("var", n))
         if d is not None:
             o += [":", SP]
